@@ -81,8 +81,11 @@ def run(cx):
     # every function hashing uses md5 over the data argument
     h = fb.one(r"^signedsource::hash$")
     upd = [t for t in h.calls() if re.search(r"Update>?::update$|Digest>?::update$", t.declared or t.callee or "")]
-    cx.ob("R33.hash-covers-input", h.id + "|digest-of-argument", len(upd) == 1 and op_place(upd[0].args[1]) is not None,
-          "hash() must feed its argument to the digest", h.loc())
+    import samesrc
+    pr = samesrc.producer(h, op_place(upd[0].args[1]).local) if len(upd) == 1 and op_place(upd[0].args[1]) is not None else None
+    cx.ob("R33.hash-covers-input", h.id + "|digest-of-argument", pr is not None and pr[0] == "param" and pr[1] == 1,
+          "hash() must feed its argument itself to the digest (found %s): a digest of a normalised / shortened copy does "
+          "not change when the characters that the normalisation removes are edited" % (pr,), h.loc())
     # ---- R33.offsets ----------------------------------------------------------------
     pats = []
     for f in fns:
